@@ -13,6 +13,7 @@ import (
 	"strconv"
 	"strings"
 	"sync"
+	"sync/atomic"
 
 	"github.com/miekg/dns"
 	"github.com/semihalev/sdns/internal/dnsutil"
@@ -762,6 +763,9 @@ func (ck *chunk) caseOf(e int, in *callIn, out callOut, truth string) CaseA {
 	return c
 }
 
+// sampledEntry[e] is set once an accepted verdict of entry point e was written to the evidence samples.
+var sampledEntry [64]atomic.Bool
+
 func (ck *chunk) observe(e int, in *callIn) {
 	out := doCall(e, in)
 	t := ck.t
@@ -803,6 +807,11 @@ func (ck *chunk) observe(e int, in *callIn) {
 		t.add("tolerated/"+name+"/"+tol, 1)
 	}
 	if sig == "" {
+		// evidence: a few accepted-and-judged verdicts, written out (one per entry
+		// point at most; the first six reach the evidence file)
+		if sampledEntry[e].CompareAndSwap(false, true) {
+			ck.r.Sample(ck.caseOf(e, in, out, tr.Kind.String()+"/"+tr.Data.String()))
+		}
 		return
 	}
 	t.add("contradicted/"+sig, 1)
